@@ -103,6 +103,7 @@ def floors(tier):
         "opt:--lcd-timeout": 5,
         "elements_cut_short_at_once": 1,
         "typed_rows_sequences": 12 if q else 40,
+        "carry_over_sequences": 12 if q else 40,
         "revisit_after_other": 50 if q else 700,
         "fresh_determinism_checked": 5,
         "set:models": 8 if q else 15,
@@ -516,6 +517,19 @@ def run_shard(spec, R):
         fpool = [fixed(probe_k, ["mem-src", "load", "store"]), fixed(rmw_k, ["rmw", "mem-src", "store"])]
         check_sequence(W, fpool, [0, 1, 0, 1, 0], R)
         R.count("typed_rows_sequences")
+        # another fixed-shape sequence: what one file defines or carries must not reach the next one - an assembler constant
+        # (.set) used but not defined in the other file; region comments of another tool in one file, OSACA comment markers with
+        # code around them in the other
+        use_k = "\taddq\t$STRIDE, %rax\n\tvaddpd\t%ymm1, %ymm2, %ymm3\n\taddq\t$8, %rcx\n"
+        def_k = ".set STRIDE, 64\n\taddq\t$STRIDE, %rax\n\tvmulpd\t%ymm1, %ymm2, %ymm3\n"
+        osaca_k = "\tmovq\t%rdi, %r8\n\tvxorpd\t%ymm0, %ymm0, %ymm0\n# OSACA-BEGIN\n.L3:\n\tvaddpd\t(%r8,%rax), %ymm0, %ymm0\n\taddq\t$32, %rax\n\tcmpq\t%rsi, %rax\n\tjne\t.L3\n# OSACA-END\n\tvmovapd\t%ymm0, (%rdx)\n\tret\n"
+        mca_k = "# LLVM-MCA-BEGIN inner\n.L4:\n\tvmulpd\t%ymm1, %ymm2, %ymm2\n\tsubq\t$1, %rcx\n\tjne\t.L4\n# LLVM-MCA-END inner\n"
+        gpool = [fixed(use_k, ["setuse"]), fixed(def_k, ["setdef"]), fixed(osaca_k, ["load"]), fixed(mca_k, ["reg"])]
+        for q_ in gpool:
+            q_["opts"] = ["--ignore-unknown"]
+            q_["key"] = digest([arch, None, q_["text"], q_["opts"]])
+        check_sequence(W, gpool, [0, 1, 0, 2, 3, 2], R)
+        R.count("carry_over_sequences")
         # fresh runs are deterministic themselves (otherwise the comparison means nothing)
         for req in rng.sample(pool, max(1, len(pool) // 10)):
             again = cli.run_sub(W.argv(req))
